@@ -305,6 +305,39 @@ func genOpenVPN(tier string, yield func(Case) bool) bool {
 			}
 		}
 	}
+	// auth mode (tls-auth) client resets, no group key configured (so the HMAC cannot be and is
+	// not verified): opcode | session id | HMAC | replay packet id 1 | time | no acks | packet
+	// id 0, for the HMAC size of every digest family OpenVPN offers - the largest (64 bytes) is
+	// the largest message of this kind - over UDP and, with the 2-byte length prefix, over TCP
+	for _, cfg := range []string{`{"modes":["auth"],"ignore_timestamp":true}`, `{"ignore_timestamp":true}`} {
+		for _, udp := range []bool{true, false} {
+			for _, d := range []int{16, 20, 28, 32, 48, 64} {
+				for _, rpid := range []uint32{1, 2} {
+					for _, lenOff := range []int{0, 1, -1} {
+						if udp && lenOff != 0 {
+							continue
+						}
+						body := []byte{0x38, 0, 0, 0, 0, 0, 0, 0, 9}
+						for i := 0; i < d; i++ {
+							body = append(body, byte(0x5a+i))
+						}
+						body = binary.BigEndian.AppendUint32(body, rpid)
+						body = binary.BigEndian.AppendUint32(body, 1700000000)
+						body = append(body, 0)
+						body = binary.BigEndian.AppendUint32(body, 0)
+						m := body
+						if !udp {
+							m = append([]byte{0, byte(len(body) + lenOff)}, body...)
+						}
+						want := rpid == 1 && lenOff == 0
+						if !yield(mk("openvpn", "openvpn", cfg, udp, m, want, fmt.Sprintf("tls-auth client reset with a %d-byte HMAC, replay packet id 1, consistent length (no key configured: HMAC not verified)", d))) {
+							return false
+						}
+					}
+				}
+			}
+		}
+	}
 	return true
 }
 
@@ -844,10 +877,10 @@ func main() {
 	runner.Main(&runner.Harness{
 		ID:    "C14",
 		Level: "model_checking",
-		Rule:  "per-protocol generators of complete first messages over boundary grids of their fields plus single-field corruptions, under several filter configurations each: ssh, xmpp, proxy_protocol, postgres (request codes, versions, parameters, corrupt lengths), socks4 (version x command x port x address x command/port/network filters), socks5 (method lists x auth_methods), regexp (patterns x count), wireguard (lengths x type x zero), openvpn plain hard-reset (TCP/UDP, opcode, session, acks, packet id, modes), winbox (user names, key length, parity, modes, username filters, 1-2 chunks), dns (names x types x classes x all 16 allow/deny/default_deny/prefer_allow combinations, TCP/UDP, header-bit corruptions), rdp (negotiation flags/protocol bits, cookie filters, structural corruptions), http (methods, hosts, paths, headers x request matcher sets), remote_ip/local_ip and 'not' (IPv4/IPv6 prefixes), clock (window boundaries +-1 s, swapped bounds, 24:00, fixed-offset and IANA zones on DST days); reference predicates are written in the harness from the wire definitions and the modules' documented filter semantics",
+		Rule:  "per-protocol generators of complete first messages over boundary grids of their fields plus single-field corruptions, under several filter configurations each: ssh, xmpp, proxy_protocol, postgres (request codes, versions, parameters, corrupt lengths), socks4 (version x command x port x address x command/port/network filters), socks5 (method lists x auth_methods), regexp (patterns x count), wireguard (lengths x type x zero), openvpn plain and tls-auth hard-reset (TCP/UDP, opcode, session, acks, packet id, modes; every HMAC size up to the 64-byte maximum), winbox (user names, key length, parity, modes, username filters, 1-2 chunks), dns (names x types x classes x all 16 allow/deny/default_deny/prefer_allow combinations, TCP/UDP, header-bit corruptions), rdp (negotiation flags/protocol bits, cookie filters, structural corruptions), http (methods, hosts, paths, headers x request matcher sets), remote_ip/local_ip and 'not' (IPv4/IPv6 prefixes), clock (window boundaries +-1 s, swapped bounds, 24:00, fixed-offset and IANA zones on DST days); reference predicates are written in the harness from the wire definitions and the modules' documented filter semantics",
 		Assumptions: []string{
 			"for 'no' cases an undecided verdict or an error also counts as not matching",
-			"RDP token routing, OpenVPN auth/crypt/crypt2 modes and HTTP/2 are exercised by C04/C06/C18 but have no independent predicate here",
+			"RDP token routing, OpenVPN crypt/crypt2 modes (and auth with a key) and HTTP/2 are exercised by C04/C06/C18 but have no independent predicate here",
 		},
 		Scenarios: func(tier string, yield func(any) bool) {
 			for _, g := range []string{"simple", "postgres", "socks", "regexp", "wireguard", "openvpn", "winbox", "dns", "rdp", "http", "addr", "clock"} {
